@@ -353,7 +353,7 @@ def _c12_paren_star(v):
     d, msg, mech, ver = _c12(v)
     anc = d.get('ancestors') or []
     return ver <= (3, 8) and msg == "can't use starred expression here" and d.get('leaf_value') == '(' and len(anc) > 2 \
-        and anc[1] == 'atom' and anc[2] in ('arglist', 'trailer', 'argument', 'classdef')
+        and anc[1] == 'atom' and anc[2] in ('arglist', 'trailer', 'argument', 'classdef', 'decorator')
 
 
 @classifier('c10_fstring_backslash_brace')
